@@ -3039,6 +3039,10 @@ namespace detail {
                         {
                             result->emplace_back(const_json_ptr_arg, &j);
                         }
+                        if (step >= end - i) // next index is past the end; also keeps i += step from overflowing
+                        {
+                            break;
+                        }
                     }
                 }
                 else
